@@ -1515,7 +1515,7 @@ class CircuitIR(AbstractBaseIR):
             # replace input variables with input in operator equations
             for var, (inp_term, inp) in in_ops.items():
                 if inp_term:
-                    op_info['equations'] = [replace(eq, var_name, inp_term) for eq in op_info['equations']]
+                    op_info['equations'] = [replace(eq, var, inp_term) for eq in op_info['equations']]
                 op_args['inputs'].update(inp)
 
             # collect operator variables and equations
